@@ -95,6 +95,11 @@ CHECKS["C11"] = dict(engine="svc", technique="differential / metamorphic propert
    note="Honest reference = this implementation (as the statement says). Real key hashes only populate distance classes >= ~248; lower classes exercise request generation and the own-record path. Global ban list reset per case.",
    ref="7.4 / C11")
 
+CHECKS["C12"] = dict(engine="svc", technique="stateful property-based testing of the real service behind a scripted handler that obeys the real handler's post-conditions; table invariants after every step",
+   text="Exploration: generated scripts of sessions (incoming handshakes modelled through the service's own who-are-you answers, outgoing Established for outstanding requests), NODES answers, PONGs, failures and user calls over records of all shapes, three IP modes and three table filters; after every step every table entry must be contactable, pass the filter, have provenance (session or explicit add), and network-learnt replacements must carry a strictly higher seq. Found two defects on the pinned tree (table filter bypassed by sessions; older record overwriting a newer one), both fixed.",
+   note="Injected events obey the handler's post-conditions (checked on the real handler by the wire-engine companion, DESIGN.md C12). add_enr is a user action and not subject to the seq rule.",
+   ref="7.4 / C12")
+
 NOT_YET = {}
 
 def main():
